@@ -13,6 +13,7 @@ from .. import astutil as au
 from ..tables import rule, ROW_LETTERS
 from . import analysis
 from .serialization import if_chain
+from ..carriers import local_roles, role
 
 rule("C03.a", "every row letter that eaopack code can append to a cType is handled by every solver interface (an unhandled "
               "letter silently drops rows in the cvxpy translation)", floor=20)
@@ -72,7 +73,7 @@ class Letters:
             l = self.of(e.body, fn, at, depth + 1, seen)
             r = self.of(e.orelse, fn, at, depth + 1, seen)
             return None if (l is None or r is None) else (l | r)
-        if isinstance(e, (ast.Name, ast.Attribute)) and au.terminal(e) == "cType":
+        if isinstance(e, ast.Attribute) and e.attr == "cType":
             return set()  # another problem's letters: produced (and counted) where that problem was built
         if isinstance(e, ast.Call):
             m = au.method_name(e)
@@ -184,10 +185,11 @@ def _producer_sites(ctx):
     """(fn, node, value expr) for every place a string flows into a cType carrier."""
     p = ctx.p
     for fn in p.all_functions():
+        roles = local_roles(fn)
         for st in au.walk_stmts(fn.body):
             if isinstance(st, (ast.Assign, ast.AugAssign, ast.AnnAssign)) and st.value is not None:
                 for t in au.stmt_targets(st):
-                    if au.terminal(t) == "cType" and isinstance(t, (ast.Name, ast.Attribute)):
+                    if role(t, roles) == "cType" and isinstance(t, (ast.Name, ast.Attribute)):
                         yield fn, st, st.value
         for c in p.calls_in(fn):
             v = au.kwarg(c, "cType")
@@ -501,7 +503,7 @@ def run(ctx):
         for st in _stmts_in(body):
             for n in au.walk_own(st):
                 if isinstance(n, ast.Call) and isinstance(n.func, ast.Name) and n.func.id == "Results":
-                    verdict, why = _status_guard(p, n, opt)
+                    verdict, why = _status_guard(p, n, opt, ff)
                     if verdict == "note":
                         ctx.note("C03.e", opt, "%s: %s" % (iname, why), "a merely feasible solution is returned as a success (ortools FEASIBLE)", node=n)
                     else:
@@ -510,7 +512,21 @@ def run(ctx):
                                "reported for status optimal" % why, node=n)
 
 
-def _status_guard(p, node, fn):
+def _is_status(e, ff, at) -> bool:
+    """a solver status: <problem>.status, or a local bound to the result of .Solve() / to a .status attribute"""
+    if isinstance(e, ast.Attribute):
+        return e.attr == "status"
+    if isinstance(e, ast.Name) and ff is not None:
+        for d in ff.defs(e.id, at):
+            v = d.value
+            if isinstance(v, ast.Call) and au.method_name(v) in ("Solve", "solve"):
+                return True
+            if isinstance(v, ast.Attribute) and v.attr == "status":
+                return True
+    return False
+
+
+def _status_guard(p, node, fn, fn_flow=None):
     """Classify the innermost status comparison guarding `node`."""
     child = node
     for anc in p.ancestors(node):
@@ -519,8 +535,8 @@ def _status_guard(p, node, fn):
             for c in au.walk_local(anc.test):
                 if isinstance(c, ast.Compare) and len(c.ops) == 1:
                     l, r = c.left, c.comparators[0]
-                    if au.terminal(l) in ("status",) or au.terminal(r) in ("status",):
-                        other = r if au.terminal(l) == "status" else l
+                    if _is_status(l, fn_flow, anc) or _is_status(r, fn_flow, anc):
+                        other = r if _is_status(l, fn_flow, anc) else l
                         if not in_body:
                             return False, "the else-branch of a status test"
                         if isinstance(c.ops[0], ast.Eq):
